@@ -1,4 +1,5 @@
 import Proofs.Confirm
+import Proofs.Reachable
 /-! C02: pure algebra of flows over any finite vertex set; completeness of the fund check. -/
 namespace CModel.Book
 open CModel CModel.Melange
@@ -141,41 +142,5 @@ end CModel.Book
 
 namespace CModel.Book
 open CModel CModel.Melange
-
-theorem createGenesis_cp {b b' : Book} {recv : Addr} {spc : Melange} {v : Vertex} {r : Except Err Vertex}
-    (h : b.createGenesis recv spc v = (b', r)) : b'.cpFunds = b.cpFunds ∧ b'.cpVerts = b.cpVerts := by
-  unfold createGenesis at h
-  split at h
-  · cases h; exact ⟨rfl, rfl⟩
-  split at h
-  · cases h; exact ⟨rfl, rfl⟩
-  split at h
-  · cases h; exact ⟨rfl, rfl⟩
-  split at h
-  · cases h; exact ⟨rfl, rfl⟩
-  rename_i b1 h1
-  obtain ⟨_, rfl⟩ := indexSave_some h1
-  split at h
-  · cases h; exact ⟨rfl, rfl⟩
-  rename_i b2 h2
-  obtain ⟨_, rfl⟩ := addVertex_some h2
-  cases h
-  simp
-
-/-- Without truncation nothing is ever checkpointed. -/
-theorem Reachable.noCheckpoint {b : Book} (r : Reachable b) : b.cpFunds = [] ∧ b.cpVerts = [] := by
-  induction r with
-  | init self => exact ⟨rfl, rfl⟩
-  | genesis _ _ _ _ _ h ih => obtain ⟨h1, h2⟩ := createGenesis_cp h; rw [h1, h2]; exact ih
-  | createLeaf trx o1 o2 tip _ hf ih =>
-    obtain ⟨_, _, _, h4, h5⟩ := (steps_createLeaf _ trx o1 o2 tip hf).frame; rw [h4, h5]; exact ⟨ih.1, ih.2⟩
-  | addLeaf v _ ih => obtain ⟨_, _, _, h4, h5⟩ := (steps_addLeaf _ v).frame; rw [h4, h5]; exact ⟨ih.1, ih.2⟩
-  | @retry b r ih => obtain ⟨_, _, _, h4, h5⟩ := (steps_retryParked b r.inv.parkOk).frame; rw [h4, h5]; exact ⟨ih.1, ih.2⟩
-  | trust a _ ih => obtain ⟨_, _, _, h4, h5⟩ := (Tr.misc (coreEq_addTrusted _ a)).frame; rw [h4, h5]; exact ⟨ih.1, ih.2⟩
-  | untrust a _ ih => obtain ⟨_, _, _, h4, h5⟩ := (Tr.misc (coreEq_removeTrusted _ a)).frame; rw [h4, h5]; exact ⟨ih.1, ih.2⟩
-
-theorem Reachable.fundsOK {b : Book} (r : Reachable b) : FundsOK b where
-  verts := fun v hv => (canonB_iff _).1 (r.inv.canon v (List.mem_append_left _ hv))
-  cp := by rw [r.noCheckpoint.1]; intro e he; cases he
 
 end CModel.Book
